@@ -17,7 +17,7 @@ TOL = 1e-10
 def plan(tier):
     n = 400 if tier == 'quick' else 6000
     return dict(n_cases=n, shards=16, min_nontrivial=n // 3,
-                min_tags={'clause:blade1d_mass': n // 12, 'clause:entrywise': n // 3, 'clause:total_mass': n // 12, 'clause:invariance': n // 12,
+                min_tags={'clause:bay_total_mass': n // 14, 'clause:blade1d_mass': n // 14, 'clause:entrywise': n // 3, 'clause:total_mass': n // 12, 'clause:invariance': n // 12,
                           'offset:nonzero': n // 6},
                 watchdog_s=1800 if tier == 'quick' else 10000,
                 rule='panels as in C02 (all four models, sub-intervals, placement), mu over six decades, offsets of both signs up to +-3t '
@@ -70,10 +70,46 @@ def case_blade1d(rng, tier):
     return c
 
 
+def case_bay_mass(rng, tier):
+    """total mass of a stiffened bay: an unrestrained flat bay moved rigidly along x (skin amplitudes only) carries the mass of
+    the skin, of every stiffener base laminated on it and of the 1-D flanges, each with ITS OWN density"""
+    d = gen.bay_desc(rng, curved=False, mmax=5, nstiff=(1, 3), kinds=('blade1d', 'blade2d', 'blade2d'), ncuts=int(rng.integers(1, 3)),
+                     fl=gen.flags(rng, 'free'))
+    c = Case({'mode': 'bay_mass', 'bay': d})
+    c.tag('clause:bay_total_mass')
+    try:
+        bay = gen.build_bay(d)
+        M = bay.calc_kM(silent=True).toarray()
+    except Exception as e:
+        return c.reject('%s in bay.calc_kM: %s' % (type(e).__name__, str(e)[:100]))
+    c.hit('StiffPanelBay.calc_kM')
+    size = M.shape[0]
+    m_, n_ = d['m'], d['n']
+    cv = np.zeros(size)
+    for j in (0, 2):
+        for i in (0, 2):
+            cv[3 * (j * m_ + i) + 0] = 1.0
+    h = d['plyt'] * len(d['stack'])
+    total = d['mu'] * h * d['a'] * d['b']
+    for s in d['stiffeners']:
+        mu_s = s.get('mu', d['mu'])
+        if 'bb' in s:
+            total += mu_s * s['bplyt'] * len(s['bstack']) * d['a'] * s['bb']
+        if s['kind'] == 'blade1d' and 'bf' in s:
+            total += mu_s * s['bf'] * s['fplyt'] * len(s['fstack']) * d['a']
+    got = float(cv @ M @ cv)
+    c.judge('rigid x-translation of the bay skin carries skin + base + 1-D flange mass, each with its own density', abs(got - total), 1e-10 * total,
+            data={'got': got, 'expected': total, 'stiffeners': [(s['kind'], 'bb' in s, s.get('mu')) for s in d['stiffeners']]})
+    c.nontrivial = any('mu' in s for s in d['stiffeners'])
+    return c
+
+
 def run_case(rng, tier, idx):
-    mode = str(rng.choice(['entry', 'entry', 'entry', 'mass', 'invariance', 'blade1d']))
+    mode = str(rng.choice(['entry', 'entry', 'entry', 'mass', 'invariance', 'blade1d', 'bay_mass']))
     if mode == 'blade1d':
         return case_blade1d(rng, tier)
+    if mode == 'bay_mass':
+        return case_bay_mass(rng, tier)
     if mode == 'entry':
         d = gen.panel_desc(rng, mmax=8)
         if rng.random() < 0.3:
